@@ -166,34 +166,37 @@ class Counters(Suite):
 
 
 class Big(Suite):
-    """one strict ranking of tens of thousands of elements against the candidate that ties them all: more than 2^31 pairs, judged against
-    the closed form proved in BigScore.v (the model itself cannot be evaluated at that size)"""
+    """one strict ranking of tens of thousands of elements against the candidate that ties them all, or that reverses it: more than 2^31
+    pairs, judged against the closed forms proved in BigScore.v (the model itself cannot be evaluated at that size)"""
     name = "big"
     imports = ["Scheme", "Judge.JC01"]
-    judge = "judge_big_tied"
-    ctype = "scheme * Z * option Z"
+    judge = "judge_big"
+    ctype = "scheme * Z * Z * option Z"
     breadcrumbs = True
 
     def gen(self, tier, rng):
-        cases = [{"n": 66000, "s": gen.UNIFYING_HALF}, {"n": 300, "s": gen.GENERIC}]
+        # kind 0: the candidate ties all the elements; kind 1: the candidate is the reverse order (every pair inverted)
+        cases = [{"n": 66000, "s": gen.UNIFYING_HALF, "kind": 0}, {"n": 300, "s": gen.GENERIC, "kind": 0},
+                 {"n": 66000, "s": gen.GENERIC, "kind": 1}, {"n": 257, "s": gen.UNIFYING, "kind": 1}]
         if tier == "thorough":
-            cases += [{"n": 70001, "s": gen.GENERIC}, {"n": 100000, "s": gen.UNIFYING}]
+            cases += [{"n": 70001, "s": gen.GENERIC, "kind": 0}, {"n": 100000, "s": gen.UNIFYING, "kind": 0}, {"n": 100000, "s": gen.PSEUDO, "kind": 1}]
         return cases
 
     def run(self, case):
         n = case["n"]
         ds = Dataset([Ranking([{i} for i in range(n)])])
-        v = KemenyComputingFactory(ScoringScheme(case["s"])).get_kemeny_score(Ranking([set(range(n))]), ds)
+        cand = Ranking([set(range(n))]) if case["kind"] == 0 else Ranking([{i} for i in reversed(range(n))])
+        v = KemenyComputingFactory(ScoringScheme(case["s"])).get_kemeny_score(cand, ds)
         return {"score": to_units(v)}
 
     def term(self, case, out):
-        return f"({scheme_term(case['s'])}, {z(case['n'])}, {copt(out['score'], z)})"
+        return f"({scheme_term(case['s'])}, {z(case['n'])}, {z(case['kind'])}, {copt(out['score'], z)})"
 
     def nontrivial(self, case, out):
         return True
 
     def stats(self, case, out, acc):
-        acc[f"n={case['n']}"] = 1
+        acc[f"n={case['n']},{'all tied' if case['kind'] == 0 else 'reversed'}"] = 1
 
 
 if __name__ == "__main__":
